@@ -535,7 +535,7 @@ def gen_hier(rng, i):
             atoms = [conn(src, tgt), conn(src, via)]
             quants = [(Loc, lambda v, src=src: conn(src, v)), (Sub, lambda v, src=src: conn(v, src))]
             eqs = [(src, tgt)] + ([(loc(), src)] if loc is not None else [])
-            attempt(m.add_precondition, rand_cond(rng, pal, atoms, eqs if "equals" in pal else [], quants))
+            attempt(m.add_precondition, rand_cond(rng, pal, atoms, eqs, quants))
         if fuel is not None and rng.random() < 0.6:
             attempt(m.add_precondition, LT(0, fuel) if rng.random() < 0.8 else LT(Times(fuel, fuel), 50))   # non-linear
         r = rng.random()
@@ -787,7 +787,7 @@ def run(ctx):
     t_ser = time.time() - t0 - t_make - t_gen
 
     # one pass for both numbers (library loading dominates a coqc run): ccode c < 16, so  ccode c + 16 * n_known c
-    both = ctx.coq_codes(cases, "fun c => (ccode c + 16 * n_known c)%N", imports=IMPORTS, shard=60, label="c10cls")
+    both = ctx.coq_codes(cases, "fun c => (ccode c + 16 * n_known c)%N", imports=IMPORTS, shard=50, label="c10cls")
     codes = [v % 16 for v in both]
     nk = [v // 16 for v in both]        # number of known-finding features per case: for the evidence only, never reported
     t_coq = time.time() - t0 - t_make - t_gen - t_ser
